@@ -92,6 +92,19 @@ Theorem unchecked_assertions_classified :
   forallb assert_ok unchecked_asserts = true /\ (2 <=? length unchecked_asserts)%nat = true.
 Proof. vm_compute. split; reflexivity. Qed.
 
+(* ---- the parser's context counters are balanced ------------------------------------------------
+   Every function of parser.go that raises a counter (p.loopDepth++) lowers it as often and has no
+   return between the first increment and the last decrement: after every complete construct the
+   counter has the value it had before, so a later break/continue is judged by its own nesting. *)
+Definition counter_ok (c : counter_site) : bool :=
+  (c_incs c =? c_decs c)%nat && (c_returns_between c =? 0)%nat.
+
+Definition has_loop_depth : bool := existsb (fun c => String.eqb (c_field c) "loopDepth") counter_sites.
+
+Theorem context_counters_balanced :
+  forallb counter_ok counter_sites = true /\ has_loop_depth = true.
+Proof. vm_compute. split; reflexivity. Qed.
+
 (* ---- token.go ------------------------------------------------------------------------------ *)
 Definition lit (s : string) : bytes :=
   List.map (fun a => Z.of_N (N_of_ascii a)) (list_ascii_of_string s).
